@@ -1096,6 +1096,18 @@ def fromV3FormFields {V : Type} (twice : Bool) (bin : List String) (objReq : Lis
   kids.filterMap (fun (sl, s) => match sl with
     | .prop name => some (fromV3FormPropT twice bin objReq name s) | _ => none)
 
+/-- what one FromV3RequestBodyFormData pass leaves behind in a form field: FromV3SchemaRef has visited the items -/
+def dropItemsNullable {V : Type} : Sch V → Sch V
+  | .ref k n => .ref k n
+  | .node h kids => .node h (kids.map (fun (sc : Slot × Sch V) => (sc.1, if sc.1 = Slot.items then dropNullable sc.2 else sc.2)))
+
+/-- the passes of the media-type loop over `n` form media types, in order: each reads the form fields from the form
+    schema as the earlier passes left it (the media types share one schema object) -/
+def formPasses {V : Type} (bin : List String) (objReq : List String) : Nat → List (Slot × Sch V) → List (List (PRef2 V))
+  | 0, _ => []
+  | n + 1, kids => fromV3FormFields false bin objReq kids ::
+      formPasses bin objReq n (kids.map (fun (sc : Slot × Sch V) => (sc.1, dropItemsNullable sc.2)))
+
 /-- fromV3RequestBodies + FromV3RequestBody / FromV3RequestBodyFormData for an operation.
     The content map is ranged over in Go map order; with one media type (or all of one kind) the result
     is order-independent: that is the modelled fragment. -/
